@@ -682,8 +682,8 @@ def gen_b(rng, runner='serial', nproc=0):
     # start with create_folder on the SAME missing path (nested), then write a file into it.  (The gated os calls let
     # python-actions of different threads overlap; an action that writes to sys.stdout WITHOUT capture while another
     # thread has swapped sys.stdout is C17's open finding stdout-overlap-threads, not C08's subject: no task with
-    # io capture None / False or verbosity 2 (output also written to the shared stream) in these cases.)
-    if rng.random() < 0.5 and not any(t.get('io') in ('false', 'none') or t.get('verbosity') == 2 for t in tasks):
+    # an io / verbosity setting (verbosity >= 1 also writes to the shared stream) in these cases.)
+    if rng.random() < 0.5 and not any(t.get('io') is not None or t.get('verbosity') is not None for t in tasks):
         path = rng.choice(['build', 'build/sub', 'out/a/b'])
         for i in range(rng.randint(2, 3)):
             tasks.append(_bt('mk%d' % i, 70 + i, actions=[_act(t='mkdir', path=path),
@@ -898,10 +898,11 @@ def sig_premature_group_status(w):
 
 def sig_unpicklable_result_hangs(w):
     """open finding unpicklable-result-hangs: an action returns a value pickle rejects (vshape 'lambda'); the process
-    runner never ends (the result is lost in the queue's feeder thread), serial / thread end with an internal error"""
+    runner never ends (the result is lost in the queue's feeder thread); serial / thread end with an internal error or,
+    when the value is only rejected by the DB at the end, report the task failed"""
     case = w.get('case') or {}
     var = w.get('variant') or {}
-    return bool(w.get('crash_only') and case.get('badvalue') == 'lambda' and var.get('runner') == 'process'
+    return bool(case.get('badvalue') == 'lambda' and var.get('runner') == 'process'
                 and (w.get('parallel') or {}).get('err') == 'deadlock')
 
 
